@@ -515,3 +515,65 @@ Example nv_debug_engine :
   /\ snd (render_partialsS tset (render_eng nv_tree nv_exec true) (false, Some [B "other"]) (B "cart") [B "b"; B "a"])
      = Some [(B "b", B "<cart.partial/b>"); (B "a", B "<cart.partial/a>")].
 Proof. vm_compute. split; reflexivity. Qed.
+
+(* A request that goes away.  Engine.Render looks at the request's context where it waits for a
+   render slot (select between ctx.Done() and the rate limiter); once the context is over (client
+   gone, deadline passed - before the call, between two partials, while waiting behind other
+   renders) every further Render of the request may be REFUSED, and which of two ready branches Go
+   takes is not determined.  So Render is not a function of the name any more: its state carries
+   the context, the slots other renders hold, the scheduler's choices.  Whatever that state is and
+   however it evolves: as long as a render either gives the partial's own content or is refused,
+   RenderPartials gives the complete answer of the pure loop or an error with no content - never
+   a part of the requested partials. *)
+Section Gone.
+  Variable St : Type.
+  Variable renderS : St -> bytes -> St * option bytes.
+  Variable render : bytes -> option bytes.
+  Hypothesis render_or_refuse :
+    forall s n, snd (renderS s n) = render n \/ snd (renderS s n) = None.
+
+  Lemma rp_loopS_gone t ps : forall s acc,
+    snd (rp_loopS St renderS s t ps acc) = rp_loop render t ps acc \/
+    snd (rp_loopS St renderS s t ps acc) = None.
+  Proof.
+    induction ps as [|p r IH]; simpl; intros s acc.
+    - left; reflexivity.
+    - destruct (render_or_refuse s (partial_name t p)) as [H|H];
+        destruct (renderS s (partial_name t p)) as [s' [b|]]; simpl in H.
+      + rewrite <- H. apply IH.
+      + rewrite <- H. left; reflexivity.
+      + discriminate.
+      + right; reflexivity.
+  Qed.
+
+  Theorem gone_all_or_nothing s t ps :
+    snd (render_partialsS St renderS s t ps) = render_partials render t ps \/
+    snd (render_partialsS St renderS s t ps) = None.
+  Proof. unfold render_partialsS, render_partials. apply rp_loopS_gone. Qed.
+End Gone.
+
+(* Counter-model: a loop that, when a render is refused because the request is gone, stops and
+   hands out what it has so far without an error ("nobody reads the response anyway"). *)
+Fixpoint rp_loopS_break (St : Type) (renderS : St -> bytes -> St * option bytes) (over : St -> bool)
+    (s : St) (t : bytes) (ps : list bytes) (acc : list (bytes * bytes)) : option (list (bytes * bytes)) :=
+  match ps with
+  | [] => Some acc
+  | p :: r =>
+    match renderS s (partial_name t p) with
+    | (s', None) => if over s' then Some acc else None
+    | (s', Some b) => rp_loopS_break St renderS over s' t r (insert p b acc)
+    end
+  end.
+
+(* state = number of renders the request still gets through before its context is over *)
+Definition leaving_render (s : nat) (n : bytes) : nat * option bytes :=
+  match s with 0 => (0, None) | S k => (k, Some (B "content")) end.
+
+Lemma gone_break_refuted :
+  exists ps p m,
+    rp_loopS_break nat leaving_render (Nat.eqb 0) 1 (B "cart") ps [] = Some m /\
+    In p ps /\ lookup p m = None.
+Proof.
+  exists [B "price"; B "stock"], (B "stock"), [(B "price", B "content")].
+  split; [vm_compute; reflexivity|split; [simpl; auto|vm_compute; reflexivity]].
+Qed.
